@@ -34,6 +34,7 @@ if ! git diff --quiet; then echo "/repo not clean"; exit 2; fi
 if ! git apply --check "$OUT/patch.diff" 2>/dev/null; then echo "patch does not apply to /repo"; exit 2; fi
 git apply "$OUT/patch.diff"
 RES=""
+mkdir -p /tmp/seed_verif_$$ && cp /verif/known_findings.json /tmp/seed_verif_$$/ 2>/dev/null
 for P in $(/verif/bin/mrocheck -list); do
   O=$(/verif/bin/mrocheck -property $P -verif /tmp/seed_verif_$$ 2>&1 | grep -v '^WARNING')
   if echo "$O" | grep -q '^VIOLATION'; then
